@@ -9,7 +9,7 @@
 //
 // Script lines
 //
-//	case <mem|fs>-<v1|v2>-<safe|unsafe> k=<K> mm=<MinSegmentsForInMemoryMerge>
+//	case <mem|fs>-<v1|v2>-<safe|unsafe> k=<K> mm=<MinSegmentsForInMemoryMerge> mp=<FloorSegmentSize> per=<SegmentsPerMergeTask>
 //	batch <op>…            one Writer.Batch; op = ins:<id>:<body> | upd:<id>:<body> | del:<id> | "-" (empty) or SYMBOLIC,
 //	                       resolved at run time against the segments under the parked merge/persist (the targets):
 //	                       @one:<r> delete one live doc of a target segment      @onedel:<r> … of a target that already carries deletions
@@ -17,7 +17,7 @@
 //	                       @all delete all live docs of all targets              @segupd:<r>:<body> update all docs of one target segment
 //	                       @stay:<r> delete one live doc of a NON-target segment  @stayupd:<r>:<body> update one
 //	fill n=<N> s=<seed>    up to N generated batches (updates/inserts/deletes over ids 1..K), stops when an armed gate is hit
-//	arm <gate>[#n] …       the n-th next hit of the gate parks its goroutine and freezes the background
+//	arm <gate>[#n] …       (replaces the armed set) the n-th next hit of the gate parks its goroutine and freezes the background
 //	await                  wait (bounded) until an armed gate was hit and the background is settled
 //	release                un-freeze, release every parked goroutine (gates armed but not yet hit stay armed)
 //	quiesce                wait until the root is persisted, the merger has planned at it and nothing moves
@@ -506,13 +506,13 @@ func wrapPlugin(ver int) *index.SegmentPlugin {
 
 type gdir struct{ inner index.Directory }
 
-func (d *gdir) Setup(readOnly bool) error          { return d.inner.Setup(readOnly) }
-func (d *gdir) List(kind string) ([]uint64, error) { return d.inner.List(kind) }
+func (d *gdir) Setup(readOnly bool) error           { return d.inner.Setup(readOnly) }
+func (d *gdir) List(kind string) ([]uint64, error)  { return d.inner.List(kind) }
 func (d *gdir) Remove(kind string, id uint64) error { return d.inner.Remove(kind, id) }
-func (d *gdir) Stats() (uint64, uint64)            { return d.inner.Stats() }
-func (d *gdir) Sync() error                        { return d.inner.Sync() }
-func (d *gdir) Lock() error                        { return d.inner.Lock() }
-func (d *gdir) Unlock() error                      { return d.inner.Unlock() }
+func (d *gdir) Stats() (uint64, uint64)             { return d.inner.Stats() }
+func (d *gdir) Sync() error                         { return d.inner.Sync() }
+func (d *gdir) Lock() error                         { return d.inner.Lock() }
+func (d *gdir) Unlock() error                       { return d.inner.Unlock() }
 
 func (d *gdir) Load(kind string, id uint64) (*segment.Data, io.Closer, error) {
 	enter()
@@ -679,8 +679,14 @@ func openCase(line string, work string) error {
 	if len(parts) != 3 {
 		return fmt.Errorf("bad config")
 	}
-	k, mm := 6, 2
+	k, mm, floor, per := 6, 2, 1, 2
 	for _, w := range f[2:] {
+		if strings.HasPrefix(w, "mp=") {
+			floor, _ = strconv.Atoi(w[3:])
+		}
+		if strings.HasPrefix(w, "per=") {
+			per, _ = strconv.Atoi(w[4:])
+		}
 		if strings.HasPrefix(w, "k=") {
 			k, _ = strconv.Atoi(w[2:])
 		}
@@ -714,9 +720,9 @@ func openCase(line string, work string) error {
 	ic.SegmentType = pl.Type
 	ic.SegmentVersion = pl.Version
 	ic.MinSegmentsForInMemoryMerge = mm
-	ic.MergePlanOptions.FloorSegmentSize = 1
+	ic.MergePlanOptions.FloorSegmentSize = int64(floor)
 	ic.MergePlanOptions.MaxSegmentsPerTier = 2
-	ic.MergePlanOptions.SegmentsPerMergeTask = 2
+	ic.MergePlanOptions.SegmentsPerMergeTask = per
 	ic.MergePlanOptions.TierGrowth = 2.0
 	ic.AsyncError = func(err error) {}
 	ic.EventCallback = onEvent
@@ -840,7 +846,10 @@ func quiesce(max time.Duration, needMerged bool) bool {
 		if act != last {
 			last, since = act, now
 		}
-		ok := busy == 0 && np == 0
+		if np > 0 {
+			return false // something got parked meanwhile: the world is frozen, not quiescent
+		}
+		ok := busy == 0
 		merged := true
 		if idx != nil {
 			s := idx.Stats()
@@ -857,13 +866,22 @@ func quiesce(max time.Duration, needMerged bool) bool {
 			}
 		}
 		quiet := now.Sub(since)
-		if ok && ((merged || !needMerged) && quiet >= 6*time.Millisecond || quiet >= 150*time.Millisecond) {
+		if ok && ((merged || !needMerged) && quiet >= 6*time.Millisecond || quiet >= lagQuiet()) {
 			return true
 		}
 		if now.After(deadline) {
 			return false
 		}
 	}
+}
+
+// the merger plans lazily (its watcher may reach the persister after the persist it waits for): when the root is
+// persisted and nothing at all has moved for this long, the merger is idle
+func lagQuiet() time.Duration {
+	if cur != nil && strings.Contains(cur.cfg, "-v2-") {
+		return 60 * time.Millisecond
+	}
+	return 20 * time.Millisecond
 }
 
 func frozenNow() bool {
@@ -1322,7 +1340,7 @@ func mergeLine(w *world, ev *event) string {
 	for i, t := range rec.tables {
 		xs := make([]string, len(t))
 		for j, x := range t {
-			if x == ^uint64(0) {
+			if x >= 1<<63-1 { // ice's docDropped sentinel (math.MaxInt64)
 				xs[j] = "x"
 			} else {
 				xs[j] = strconv.FormatUint(x, 10)
@@ -1433,9 +1451,12 @@ func doRead(out func(string, string), st sink, tag string) {
 
 func fill(n int, seed uint64, out func(string, string), st sink) {
 	r := hlib.NewRand(seed)
+	mu.Lock()
+	hitAtStart := W.armedHit
+	mu.Unlock()
 	for i := 0; i < n; i++ {
 		mu.Lock()
-		hit := W.armedHit
+		hit := W.armedHit && !hitAtStart
 		mu.Unlock()
 		if hit {
 			st.Count("fill-stopped-at-gate")
@@ -1463,13 +1484,18 @@ func fill(n int, seed uint64, out func(string, string), st sink) {
 				ops = append(ops, fmt.Sprintf("del:%d", ids[j]))
 			}
 		}
+		t1 := time.Now()
 		issueBatch(strings.Join(ops, " "), out, st)
+		st.CountN("ms:fill-issue", int(time.Since(t1).Milliseconds()))
 		st.Count("op:fill-batch")
 		// let the background react: until it is parked, or the root is persisted
+		t1 = time.Now()
 		if frozenNow() {
 			settle(4*time.Millisecond, time.Second)
+			st.CountN("ms:fill-settle", int(time.Since(t1).Milliseconds()))
 		} else {
-			quiesce(2*time.Second, false)
+			ok := quiesce(2*time.Second, false)
+			st.CountN(fmt.Sprintf("ms:fill-quiesce-%v", ok), int(time.Since(t1).Milliseconds()))
 		}
 	}
 }
@@ -1488,6 +1514,8 @@ func execReal(line string, out func(string, string), st sink, work string) {
 	if w[0] != "case" && w[0] != "end" {
 		cur.history += "\n" + line
 	}
+	t0 := time.Now()
+	defer func() { st.CountN("ms:"+w[0], int(time.Since(t0).Milliseconds())) }()
 	switch w[0] {
 	case "case":
 		closeCase(out, st)
@@ -1497,7 +1525,7 @@ func execReal(line string, out func(string, string), st sink, work string) {
 		}
 		st.Count("config:" + cur.cfg)
 		for _, x := range w[2:] {
-			if strings.HasPrefix(x, "mm=") {
+			if strings.HasPrefix(x, "mm=") || strings.HasPrefix(x, "mp=") || strings.HasPrefix(x, "per=") {
 				st.Count("config-" + x)
 			}
 		}
@@ -1519,6 +1547,7 @@ func execReal(line string, out func(string, string), st sink, work string) {
 		fill(n, seed, out, st)
 	case "arm":
 		mu.Lock()
+		W.armed = map[string]int{}
 		for _, g := range w[1:] {
 			n := 1
 			if i := strings.IndexByte(g, '#'); i >= 0 {
@@ -1529,7 +1558,7 @@ func execReal(line string, out func(string, string), st sink, work string) {
 		}
 		mu.Unlock()
 	case "await":
-		g, ok := await(1500 * time.Millisecond)
+		g, ok := await(800 * time.Millisecond)
 		if ok {
 			st.Count("gate-reached:" + g)
 		} else {
@@ -1757,7 +1786,7 @@ var scenarios = []scenario{
 	{"ps", []int{100, 2, 3}, false, []string{"ps:write", "ps:segwritten", "ps:loaded", "ps:swapped", "ps:snapwritten"}},
 }
 
-var kinds = []string{"@one", "@onedel", "@upd", "@seg", "@all", "@stay", "@segupd", "@one+@stay", "@onedel+@upd", "@seg+@stayupd"}
+var kinds = []string{"@one", "@onedel", "@upd", "@seg", "@all", "@stay", "@segupd", "@one+@stay", "@onedel+@upd", "@seg+@stayupd", "@onedel+@stay", "@onedel+@onedel"}
 
 func (h) Gen(r *hlib.Rand, tier string, scale int, emit func(string)) {
 	dirs := []string{"mem", "fs"}
@@ -1789,7 +1818,11 @@ func (h) Gen(r *hlib.Rand, tier string, scale int, emit func(string)) {
 		cno++
 		body = 0
 		k := r.Range(4, 12)
-		emit(fmt.Sprintf("case %s k=%d mm=%d", cfgName, k, mm))
+		floor := []int{100, 100, 4, 1}[r.Intn(4)]
+		if sc.name != "fm" {
+			floor = []int{100, 4, 1, 1}[r.Intn(4)]
+		}
+		emit(fmt.Sprintf("case %s k=%d mm=%d mp=%d per=%d", cfgName, k, mm, floor, r.Range(2, 3)))
 		// free-running prefix
 		if pre := r.Intn(5); pre > 0 {
 			emit(fmt.Sprintf("fill n=%d s=%d", pre, r.U64()%1000000))
@@ -1809,6 +1842,9 @@ func (h) Gen(r *hlib.Rand, tier string, scale int, emit func(string)) {
 		emit(fmt.Sprintf("fill n=%d s=%d", 9, r.U64()%1000000))
 		emit("await")
 		emit("read")
+		if r.Chance(50) {
+			emit("hold") // a reader opened at the gate is read again at the end
+		}
 		emit(symBatch(k1))
 		if twoAtFirst {
 			emit(symBatch(kinds[r.Intn(len(kinds))]))
@@ -1849,7 +1885,7 @@ func (h) Gen(r *hlib.Rand, tier string, scale int, emit func(string)) {
 		}
 		return
 	}
-	n := 150 * scale
+	n := 110 * scale
 	for c := 0; c < n; c++ {
 		sc := scenarios[c%len(scenarios)]
 		i := r.Intn(len(sc.phases))
